@@ -76,6 +76,16 @@ def carlike_fns(crate):
     """Local helpers whose result is derived from the car of their argument only (e.g. `entry_pair(cell)` =
     `cell.car().as_cons().ok_or_else(..)`)."""
     like = set()
+    # a helper that only ever returns `Err(..)` (`fn invalid<T>(..) -> Result<T>`) hands on no cell at all: as a source
+    # of a value it is as harmless as an `Err` aggregate
+    for f in crate.fns:
+        if f.kind == "closure" or not f.local_ty(0).startswith("std::result::Result<"):
+            continue
+        aggs = [st["rv"] for b in f.blocks for st in b["stmts"] if st["k"] == "assign" and st["rv"]["k"] == "agg"
+                and st["rv"].get("adt") == "std::result::Result"]
+        ret_calls = [t for _bi, t in f.calls() if not t["dest"]["p"] and t["dest"]["l"] == 0]
+        if aggs and all(a.get("variant") == 1 for a in aggs) and not ret_calls:
+            like.add(f.path)
     for _ in range(4):
         new = set()
         for f in crate.fns:
